@@ -40,7 +40,7 @@ META = {
     'technique': 'Lean 4 proof (loop skipping lemma + one-step stop lemmas) + differential correspondence check',
 }
 
-FAULTS = ['nan', 'pinf', 'ninf', 'warn', 'raise']
+FAULTS = ['nan', 'pinf', 'ninf', 'allinf', 'allninf', 'warn', 'raise']
 CATS = list(sc.WARNING_CATEGORIES)
 
 
@@ -103,7 +103,7 @@ def offset_cases(rng, count):
         if not offs:
             continue
         off = rng.choice(offs)
-        seq = [rng.choice(['far', 'close', 'same', 'nan', 'pinf', 'ninf', 'zero', 'raise', 'warn']) for _ in range(rng.randint(0, 4))]
+        seq = [rng.choice(['far', 'close', 'same', 'nan', 'pinf', 'ninf', 'allinf', 'allninf', 'zero', 'zero', 'raise', 'warn']) for _ in range(rng.randint(0, 4))]
         M = rng.choice([1, 2, 3, 5])
         o = mkopts(rng.choice([0, 0, 1, 2]) if M > 1 else 0, M, off, rng.choice(['raise', 'ignore']), rng.choice(ERRORS),
                    rng.choice([True, False]))
